@@ -117,6 +117,17 @@ func diffJSON(path string, a, b any, out *[]string, limit int) {
 			}
 			diffJSON(path+"."+k, av, bv, out, limit)
 		}
+	case []any:
+		// lists of equal length are compared element by element (the path then names the element that differs)
+		if bt, ok := b.([]any); ok && len(bt) == len(at) && len(at) > 0 {
+			for i := range at {
+				diffJSON(fmt.Sprintf("%s[%d]", path, i), at[i], bt[i], out, limit)
+			}
+			return
+		}
+		if mustJSON(a) != mustJSON(b) {
+			*out = append(*out, fmt.Sprintf("%s: expected %s observed %s", path, mustJSON(a), mustJSON(b)))
+		}
 	default:
 		if mustJSON(a) != mustJSON(b) {
 			*out = append(*out, fmt.Sprintf("%s: expected %s observed %s", path, mustJSON(a), mustJSON(b)))
